@@ -58,6 +58,21 @@ def monitor (req : Option String) (S : Setup) : Obs → Option Clause
     else none
   | .other => some .crashed
 
+/-- The matrix clauses plus the classification of F46's failing shape. -/
+inductive ClauseW
+  | base (c : Clause)
+  | hiddenFilter   -- the transport cannot serve the negotiated version and a LoggingTransport sits in the stack
+deriving DecidableEq, Repr
+
+/-- **The monitor the driver runs**: `monitor`, with "not supported by the transport" reported under its
+own clause when a `LoggingTransport` is part of the server's transport stack (F46's shape). It fires
+exactly when `monitor` does (`Stack.monitorW_none_iff`). -/
+def monitorW (req : Option String) (S : Setup) (o : Obs) : Option ClauseW :=
+  match monitor req S o with
+  | none => none
+  | some c =>
+    if (c == .f10 || c == .notTransport) && S.logging != .none then some .hiddenFilter else some (.base c)
+
 /-- **The C07 monitor of one foreign-peer cell.** -/
 def monitorPeer (req : Option String) (P : Peer) : Obs → Option PClause
   | .ok v l c =>
